@@ -205,7 +205,14 @@ class Runner(object):
             for e in amap:
                 smap[self.oi.LineLocation(path(e['gfile']), e['gline'])] = self.oi.OriginInfo(
                     self.oi.Location(path(e['file']), e['line'], 0), e['fn'], 'orig code', None)
-            out = self.eu._stack_trace_inside_mapped_code(tuples, smap, self.api_file)
+            try:
+                out = self.eu._stack_trace_inside_mapped_code(tuples, smap, self.api_file)
+            except Exception as e:    # the transcription never fails (ScanAssert is an invariant of the model)
+                classes = ''.join(self._cls(f, amap) for f in tb)
+                self.rep.violation('c12:scan-raises:%s' % classes,
+                                   '_stack_trace_inside_mapped_code raises %r on frame classes %s' % (e, classes),
+                                   dict(origin=origin, tb=tb, source_map=amap, expected=exp))
+                return
             inv = {path(x): x for x in ('U', 'A', 'INT', 'API', 'G1', 'G2', 'G3', 'G4')}
             got = [[inv.get(f.filename, f.filename), f.function_name, f.lineno, bool(f.is_converted),
                     bool(f.is_allowlisted)] for f in out]
@@ -460,7 +467,7 @@ def _run(rep, tier, only=None):
     run = Runner(rep, mods)
     run.shape_mismatch = []
     run.imprecise = []
-    workers = 8 if tier == 'quick' else 16
+    workers = 6 if tier == 'quick' else 12
     try:
         # frames mode: the scan on every short frame sequence
         res = tlc.run_tlc('ErrorMap', _cfg(mode='frames', maxframes=5), workers=workers, timeout=600, name='ErrorMapFrames')
